@@ -319,9 +319,10 @@ class Server:
                 if t <= 0 or not self._pipeline_notfull.wait(t):
                     raise ServerBacklogFull(len(pipeline), perf_counter() - t0)
 
-            self._input_buffer.put((uid, x))
             pipeline[uid] = fut
-            # See doc of counterpart methods in `AsyncServer`.
+            self._input_buffer.put((uid, x))
+            # The ledger entry must exist before the input can reach a worker,
+            # otherwise a fast result may arrive before the entry and be dropped.
 
         fut.data['t1'] = perf_counter()
         return fut
@@ -584,8 +585,11 @@ class AsyncServer:
             #     change `pipeline.pop(uid)` in `_gather_output` to `pipeline.pop(uid, None)`;
             # (2) in `call`, protect the calll to `_enqueue` by an `asyncio.shield`.
 
-            self._input_buffer.put((uid, x))
             pipeline[uid] = fut
+            self._input_buffer.put((uid, x))
+            # No `await` lies between these two lines, hence this coroutine can not be
+            # abandoned in between; and the ledger entry must exist before the input can
+            # reach a worker, otherwise a fast result may arrive first and be dropped.
 
         fut.data['t1'] = perf_counter()  # enqueing finished if `t1` != `t0`
         return fut
